@@ -472,6 +472,15 @@ func msJudge(r *run.Runner, sig string, reqs []msReq, results []*msResult, final
 	tr := strings.Join(trace, " ; ")
 	postDone := map[string]bool{}
 	replacedKey := map[string]bool{}
+	// a reply that changes the resource's Vary field may legitimately be
+	// selected for other X-A values afterwards: "which variant" is not judged
+	// for that path in such a tuple
+	varyChanged := map[string]bool{}
+	for _, q := range reqs {
+		if q.NV {
+			varyChanged[q.Path] = true
+		}
+	}
 	for _, res := range results {
 		q := res.req
 		if res.panicv != "" {
@@ -491,7 +500,7 @@ func msJudge(r *run.Runner, sig string, reqs []msReq, results []*msResult, final
 			replacedKey[q.Path+"|"+q.XA] = true
 		}
 		want := q.Path + "|" + q.XA
-		if res.status != 504 && res.header.Get("X-Res") != want {
+		if res.status != 504 && res.header.Get("X-Res") != want && !varyChanged[q.Path] {
 			r.Violation("wrong-resource", sig, fmt.Sprintf("%s got a response for %q under schedule [%s]", q.Name, res.header.Get("X-Res"), tr), nil)
 		}
 		if q.Method == "GET" && res.status == 200 && !sim.ParseBody(res.body).Intact {
@@ -511,7 +520,7 @@ func msJudge(r *run.Runner, sig string, reqs []msReq, results []*msResult, final
 		if strings.Contains(v, "intact=false") {
 			r.Violation("stored-body-damaged", sig, fmt.Sprintf("after schedule [%s] the store serves a damaged body for %s: %s", tr, key, v), nil)
 		}
-		if !strings.HasPrefix(v, "504") && !strings.Contains(v, "res="+key) {
+		if !strings.HasPrefix(v, "504") && !strings.Contains(v, "res="+key) && !varyChanged[path] {
 			r.Violation("stored-wrong-resource", sig, fmt.Sprintf("after schedule [%s] the store serves %s for %s", tr, v, key), nil)
 		}
 		if replacedKey[key] && strings.Contains(v, "body=old") && !strings.HasPrefix(v, "504") {
